@@ -12,6 +12,14 @@ The lexers of the model are instantiated by the implementation's own leaf functi
 candidate byte strings of each message; the check also asserts that both sides lexed the
 same byte strings (ghost fields fl / hb).
 
+A fourth, tighter tie (`eval_lexer`, machine `httplex`): the *concrete* Lean lexers of
+CV/Model/HttpLex.lean (`concreteLex`: request line, status line, header block incl. continuation
+lines and the framing facts read through `Headers`, chunk-size line) are compared with those leaf
+functions on every string the table-driven ties lex (also C14's mutation stream) and on a lexer-level
+mutation stream; a string the model refuses (`unsupported`: backslash = unicode_escape, ...) is
+counted, not compared.  The character tables and regex sources are parameter obligations (all 256
+code points).
+
 Spec on impl (C) is the property statement itself, a plain comparison: the request events
 (method, path, query string, protocol, headers, body), the bytes written and the closes -
 resp. the response events of the client - of the segmented delivery equal those of one-piece
@@ -532,8 +540,11 @@ def segs_of(msgs, cuts):
 
 def tables_for(kind, msgs):
     t = LexTables()
-    for m in msgs:
-        t.add_message(kind, m)
+    try:
+        for m in msgs:
+            t.add_message(kind, m)
+    finally:
+        LEXTIE.add_tables(t)     # every string lexed here is also put to the concrete Lean lexers (eval_lexer)
     return t
 
 
@@ -849,6 +860,289 @@ def eval_reading(ctx, cases):
 
 
 # ---------------------------------------------------------------------------------------
+# the concrete lexers of the model (CV/Model/HttpLex.lean, machine `httplex`) against the leaf functions
+# ---------------------------------------------------------------------------------------
+
+def _lat(s):
+    return s.encode('latin-1', 'backslashreplace')
+
+
+def impl_first(kind, line):
+    """what `_parse_firstline` (kind 0 / 1) makes of `line`, as the answer line the driver should give"""
+    from circuits.web.parsers.http import HttpParser
+    p = HttpParser(kind)
+    try:
+        ok = p._parse_firstline(str(line, 'unicode_escape'))
+    except Exception as e:  # noqa: BLE001 - a Python exception in the leaf: outside the model
+        return f'exn {type(e).__name__}'
+    if not ok:
+        return 'invalid'
+    v = p.get_version()
+    if kind == 0:
+        return f'req {hx(_lat(p.get_method()))} {hx(_lat(p.get_url()))} {v[0]} {v[1]}'
+    # the reason phrase has no getter: compared only while the attribute exists (`*` = not observable)
+    reason = getattr(p, '_reason', None)
+    return f"resp {v[0]} {v[1]} {p.get_status_code()} {hx(_lat(reason)) if isinstance(reason, str) else '*'}"
+
+
+def impl_hdrs(block):
+    """what `_parse_headers` makes of the header block: ('ok', framing facts, canonical fields, parser framing) | str"""
+    from circuits.web.parsers.http import HttpParser, InvalidHeader
+    import httputil
+    p = HttpParser(0)
+    try:
+        p._parse_headers(block + CRLF2)
+    except InvalidHeader:
+        return 'invalid'
+    except Exception as e:  # noqa: BLE001
+        return f'exn {type(e).__name__}'
+    h = p.get_headers()
+    raw = h.get('content-length')
+    if raw is None:
+        clen = 'absent'
+    else:
+        try:
+            clen = str(int(raw))
+        except ValueError:
+            clen = 'bad'
+    te = h.get('transfer-encoding', '').lower() == 'chunked'
+    facts = f"{clen} {int(te)} {int(bool(h.get('Host')))} {int(bool(p.is_upgrade()))}"
+    return ('ok', facts, httputil.canon_headers(h), (getattr(p, '_clen', '*'), bool(p.is_chunked())))
+
+
+def impl_chunk(line):
+    from circuits.web.parsers.http import HttpParser, InvalidChunkSize
+    try:
+        size, _rest = HttpParser()._parse_chunk_size(line + CRLF2)
+    except InvalidChunkSize:
+        return 'invalid'
+    except Exception as e:  # noqa: BLE001
+        return f'exn {type(e).__name__}'
+    return 'exn size-None' if size is None else f'ok {size}'
+
+
+def lexer_case(lex, s, pk=0):
+    return {'kind': 'lexer', 'lex': lex, 'pk': pk, 's': hx(s)}
+
+
+def eval_lexer(ctx, cases):
+    """cases: dict(kind='lexer', lex='first'|'hdrs'|'chunk', pk=0|1, s=hex): the Lean lexer and the leaf function of
+    the tree under test on one string.  `unsupported` = the model refuses the string (counted, nothing compared)."""
+    from circuits.web.headers import Headers
+    import httputil
+    ops, keep = [], []
+    for c in cases:
+        s = unhx(c['s'])
+        if c['lex'] == 'first':
+            ops.append(f"clex1 {c['pk']} {c['s']}")
+        elif c['lex'] == 'hdrs':
+            if (s + CRLF2).find(CRLF2) != len(s):
+                ctx.count('concrete_lexer_skipped', 'hdrs:not-a-header-block')
+                continue
+            ops.append(f"clexh {c['s']}")
+        else:
+            if CRLF in s:
+                ctx.count('concrete_lexer_skipped', 'chunk:not-a-line')
+                continue
+            ops.append(f"clexc {c['s']}")
+        keep.append((c, s))
+    answers = ctx.driver.run('httplex', ops)
+    for (c, s), a in zip(keep, answers):
+        name = c['lex'] + (str(c['pk']) if c['lex'] == 'first' else '')
+        ctx.count('concrete_lexer_compared', name)
+        ctx.count('concrete_lexer_len', f'{name}:{min(len(s) // 16 * 16, 128)}+')
+        if a == 'unsupported':
+            ctx.count('concrete_lexer_unsupported', name + (':backslash' if b'\\' in s else ':other'))
+            ctx.case(c, nontrivial=False, validated=True)
+            continue
+        ok = True
+        if c['lex'] == 'first':
+            want = impl_first(c['pk'], s)
+            if want.endswith(' *') and a.startswith('resp '):
+                a = a.rsplit(' ', 1)[0] + ' *'
+            if want != a:
+                ok = False
+                ctx.disagree(c, {'where': 'concrete-lexer', 'lexer': name, 'string': repr(s), 'impl': want, 'model': a})
+        elif c['lex'] == 'chunk':
+            want = impl_chunk(s)
+            if want != a:
+                ok = False
+                ctx.disagree(c, {'where': 'concrete-lexer', 'lexer': name, 'string': repr(s), 'impl': want, 'model': a})
+        else:
+            want = impl_hdrs(s)
+            if isinstance(want, str) or a in ('invalid', 'bad-op'):
+                if want != a:
+                    ok = False
+                    ctx.disagree(c, {'where': 'concrete-lexer', 'lexer': name, 'string': repr(s),
+                                     'impl': want if isinstance(want, str) else want[:3], 'model': a})
+            else:
+                f = a.split()
+                facts = ' '.join(f[1:5])
+                toks = f[6:]
+                fields = [(unhx(toks[i]).decode('latin-1'), unhx(toks[i + 1]).decode('latin-1')) for i in range(0, len(toks), 2)]
+                mh = Headers([])
+                for n, v in fields:          # the model's add_header calls, stored by the real Headers class
+                    mh.add_header(n, v)
+                canon = httputil.canon_headers(mh)
+                clen = f[1]
+                framing = (int(clen), False) if clen not in ('absent', 'bad') else (None, f[2] == '1' and clen == 'absent')
+                if want[3][0] == '*':       # no `_clen` attribute to look at: only is_chunked() is observable
+                    framing = ('*', framing[1])
+                if facts != want[1] or canon != want[2] or framing != want[3] or int(f[5]) != len(fields):
+                    ok = False
+                    ctx.disagree(c, {'where': 'concrete-lexer', 'lexer': name, 'string': repr(s),
+                                     'impl': [want[1], want[2], want[3]], 'model': [facts, canon, framing]})
+                ctx.count('concrete_lexer_fields', min(len(fields), 8))
+        ctx.count('concrete_lexer_answer', name + ':' + a.split()[0])
+        ctx.case(c, nontrivial=True, validated=ok)
+
+
+class LexTie:
+    """collects every string the table-driven correspondence lexes; `flush` compares the concrete Lean lexers on them"""
+
+    def __init__(self):
+        self.seen = set()
+        self.pending = []
+
+    def add(self, lex, s, pk=0):
+        key = (lex, pk, s)
+        if key not in self.seen:
+            self.seen.add(key)
+            self.pending.append(lexer_case(lex, s, pk))
+
+    def add_tables(self, t):
+        for (kind, fl) in t.first:
+            self.add('first', fl, kind)
+        for fl in getattr(t, 'exn1', ()):
+            self.add('first', fl, 0)
+        for hb in t.hdrs:
+            self.add('hdrs', hb)
+        for hb in getattr(t, 'exnh', ()):
+            self.add('hdrs', hb)
+        for ln in t.chunk:
+            self.add('chunk', ln)
+
+    def flush(self, ctx):
+        cs, self.pending = self.pending, []
+        for i in range(0, len(cs), 2000):
+            eval_lexer(ctx, cs[i:i + 2000])
+
+
+LEXTIE = LexTie()
+
+LEX_ATOMS = [b' ', b'\t', b'\n', b'\r', b'\x0b', b'\x0c', b'\x1c', b'\x1f', b'\x85', b'\xa0', b'\x00', b'_', b'+', b'-', b'0x', b'0X',
+             b';', b':', b'#', b'/', b'//', b'[', b']', b'?', b'.', b'0', b'1', b'9', b'a', b'f', b'F', b'g', b'x', b'HTTP/', b'1.1',
+             b',', b'(', b'"', b'=', b'@', b'\x7f', b'\xe9', b'\xb5', b'\xdf', b'\xff', b'\xd7', b'\xb2', b'\\', b'\\n', b'chunked',
+             b'upgrade', b'Upgrade', b'Content-Length', b'close', b'$', b'^', b'`', b'~', b'{', b'Z', b'z', b'\r\n', b'\r\n ',
+             b'\r\n\t', b'200', b' OK']
+LEX_FIRST0 = [b'GET / HTTP/1.1', b'POST /a/b?x=1&y=2 HTTP/1.0', b'OPTIONS * HTTP/1.1', b'GET http://h:80/p?q HTTP/1.1',
+              b'GET //h/p HTTP/1.1', b'M-SEARCH * HTTP/1.1', b'GET /a#b HTTP/1.1', b'GET /a# HTTP/1.1', b'GET / HTTP/12.34',
+              b'GET / HTTP/123', b'GET /  HTTP/1.1 ', b'G$T_. /x HTTP/1x1', b'A' * 20 + b' / HTTP/1.1', b'A' * 21 + b' / HTTP/1.1',
+              b'get / HTTP/1.1', b'GET / HTTP/1.1\n', b'GET http://[::1]/ HTTP/1.1', b'GET / http/1.1', b'GET /']
+LEX_FIRST1 = [b'HTTP/1.1 200 OK', b'HTTP/1.0 404 Not Found', b'HTTP/1.1 204 No Content', b'HTTP/1.1 200', b'HTTP/1.1 200 ',
+              b'HTTP/1.1 2000 OK', b'HTTP/1.1 200 O-K', b'HTTP/1.1 200\nOK\n', b'HTTP/12.3  301   Moved_Permanently 2',
+              b'HTTP/1.1 200 caf\xe9', b'HTTP/1.1 200 \xd7', b'HTTP/1234 500 x', b'HTTP/1.1\t099\tz']
+LEX_HDRS = [b'Host: h', b'Host: h\r\nContent-Length: 5', b'Content-Length: 5\r\ncontent-length: 5', b'Transfer-Encoding: chunked',
+            b'Transfer-Encoding: Chunked\r\nHost: example.org', b'Connection: keep-alive, Upgrade\r\nUpgrade: websocket',
+            b'X-A: a\r\n b\r\n\tc\r\nX-B:  v  ', b'Content-Length: +5', b'Content-Length: 1_0', b'Content-Length:  7 ',
+            b'Content-Length: 5\r\n 6', b'Set-Cookie: a=b\r\nSet-Cookie: c=d', b'Host : h', b'X A: v', b': v', b' : v', b'NoColon',
+            b'Host:', b'Transfer-Encoding: chunked\r\nTransfer-Encoding: chunked', b'Connection: a,upgrade ,b', b'Content-Length: \xa05\x85',
+            b'Content-Length: 0x10', b'CONTENT-length: -3', b'Transfer-Encoding: gzip, chunked', b'Transfer-Encoding: xchunked',
+            b'Connection: upgraded', b'Connection: Keep-Alive,\tUPGRADE', b'X-\xe9: v', b'Host: a:b:c', b'Content-Length: ' + b'1' * 30]
+LEX_CHUNK = [b'0', b'5', b'1a', b'FF', b'00a', b'5;x=y', b'5 ;x', b' 5', b'5\t', b'+5', b'-5', b'-0', b'0x1f', b'0X_1f', b'1_0', b'',
+             b';', b'+', b'-', b'0x', b'1__0', b'_1', b'1_', b'g', b'5\x00', b'\x0b5\x0c', b'\x1c5', b'5\xa0', b'f' * 40, b'5;;', b'0;a;b',
+             b'0_0', b'+0x_f', b'0_x1']
+
+
+def mutate_lex(rng, s):
+    for _ in range(rng.choice([1, 1, 1, 2, 3])):
+        op = rng.random()
+        i = rng.randint(0, len(s))
+        if op < 0.45:
+            s = s[:i] + rng.choice(LEX_ATOMS) + s[i:]
+        elif op < 0.65 and s:
+            j = min(len(s), i + rng.choice([1, 1, 2, 4]))
+            s = s[:i] + s[j:]
+        elif op < 0.85 and s:
+            i = min(i, len(s) - 1)
+            s = s[:i] + rng.choice(LEX_ATOMS) + s[i + 1:]
+        else:
+            s = s[:i] + bytes([rng.randrange(256)]) + s[i:]
+    return s
+
+
+def gen_lexer_cases(ctx, n):
+    """lexer-level strings: the fixed boundary lists, the grammar's own lines, and 1-3 byte-level mutations of them
+    (whitespace variants, signs, underscores, prefixes, separators, control / high bytes, backslashes)"""
+    rng = ctx.rng
+    out = []
+    for s in LEX_FIRST0:
+        out.append(lexer_case('first', s, 0))
+    for s in LEX_FIRST1:
+        out.append(lexer_case('first', s, 1))
+    for s in LEX_HDRS:
+        out.append(lexer_case('hdrs', s))
+    for s in LEX_CHUNK:
+        out.append(lexer_case('chunk', s))
+    for _ in range(n):
+        which = rng.random()
+        if which < 0.3:
+            base = rng.choice(LEX_FIRST0) if rng.random() < 0.5 else gen_request(rng, maxbody=0, force='none').split(CRLF)[0]
+            out.append(lexer_case('first', mutate_lex(rng, base), 0))
+        elif which < 0.45:
+            base = rng.choice(LEX_FIRST1) if rng.random() < 0.5 else gen_response(rng, maxbody=0)[0].split(CRLF)[0]
+            out.append(lexer_case('first', mutate_lex(rng, base), 1))
+        elif which < 0.75:
+            if rng.random() < 0.5:
+                base = rng.choice(LEX_HDRS)
+            else:
+                m = gen_request(rng, maxbody=3)
+                base = m[m.find(CRLF) + 2:m.find(CRLF2)] if CRLF2 in m else b'Host: h'
+            out.append(lexer_case('hdrs', mutate_lex(rng, base)))
+        else:
+            base = rng.choice(LEX_CHUNK) if rng.random() < 0.6 else (b'%x' % rng.randrange(1 << rng.choice([4, 8, 16, 70]))) + rng.choice(EXTS)
+            out.append(lexer_case('chunk', mutate_lex(rng, base)))
+    return out
+
+
+def lexer_params(ctx):
+    """the character tables and regex sources the concrete lexers mirror, against the live Python / module (all 256 code points)"""
+    import re
+    import circuits.web.parsers.http as ph
+    pats = (ph.METHOD_RE.pattern, ph.VERSION_RE.pattern, ph.STATUS_RE.pattern, ph.HEADER_RE.pattern)
+    want = ('^[A-Z0-9$-_.]{1,20}$', r'^HTTP/(\d+).(\d+)$', r'^(\d{3})(?:\s+([\s\w]*))$', '[\\x00-\\x1F\\x7F()<>@,;:/\\[\\]={} \\t\\\\"]')
+    ctx.param('METHOD_RE / VERSION_RE / STATUS_RE / HEADER_RE are the patterns quoted in CV/Model/HttpLex.lean', pats == want, repr(pats))
+    ans = ctx.driver.run('httplex', [f'ccls {n}' for n in range(256)])
+    bad = []
+
+    def int_ok(x):
+        try:
+            return int(x) == 1
+        except ValueError:
+            return False
+    for n, a in enumerate(ans):
+        bits, up, lo = a.split()
+        ch = chr(n)
+        py = ''.join(str(int(bool(x))) for x in (
+            ch.isspace() and re.match(r'\s', ch) and (ch + 'a' + ch).strip() == 'a' and len(('a' + ch + 'a').split()) == 2,
+            (bytes([n]) + b'a' + bytes([n])).strip() == b'a',
+            int_ok(ch + '1' + ch),
+            re.match(r'\d', ch),
+            re.match(r'\w', ch),
+            ph.METHOD_RE.match(ch),
+            ph.HEADER_RE.search(ch)))
+        ok = bits == py
+        if n < 128:
+            ok = ok and ord(ch.upper()) == int(up) and ord(ch.lower()) == int(lo)
+        else:
+            ok = ok and len(ch.lower()) == 1 and ord(ch.lower()) >= 128 and int(lo) == n
+        if not ok:
+            bad.append((n, a, py))
+    ctx.param('character classes of the concrete lexers (isspace, bytes.strip, int() whitespace, \\d, \\w, METHOD_RE, HEADER_RE, '
+              'upper/lower) agree with the live Python on all 256 code points', not bad, repr(bad[:6]))
+
+
+# ---------------------------------------------------------------------------------------
 # case generation
 # ---------------------------------------------------------------------------------------
 
@@ -948,7 +1242,7 @@ def gen_cases(ctx):
     return cases
 
 
-EVAL = {'parser': eval_parser, 'server': eval_server, 'client': eval_client, 'reading': eval_reading}
+EVAL = {'parser': eval_parser, 'server': eval_server, 'client': eval_client, 'reading': eval_reading, 'lexer': eval_lexer}
 
 
 def params(ctx):
@@ -975,7 +1269,13 @@ def run(ctx):
                 'distinct = distinct (messages, cut lists)')
     ctx.trusted += [
         'lexical leaf functions (unicode_escape, str.split, regexes, urlsplit, Headers, int(.,16), path guard) are '
-        'parameters of the model; instantiated per message by calling the implementation\'s own leaf methods',
+        'parameters of the parser model in the parser / server / client ties; instantiated per message by calling the '
+        'implementation\'s own leaf methods',
+        'concrete lexers (CV/Model/HttpLex.lean, theorems C13.*_concrete / lex*_roundtrip / lexChunk_*): compared string by '
+        'string with the same leaf methods (histograms concrete_lexer_*); outside their domain and left to the '
+        'implementation: strings with a backslash (unicode_escape), first lines / Content-Length values over 4000 '
+        'characters, targets with // and brackets or non-ASCII (urlsplit ValueError), non-ASCII header names; urlsplit\'s '
+        'path/query/scheme and the canonical-path guard remain parameters',
         'HEAD requests, Content-Encoding gzip/deflate (decompress), Upgrade responses, pipelining: outside the model',
         'in-process rig: read events fired on channel web, write/close captured, Date header frozen',
     ]
@@ -983,13 +1283,18 @@ def run(ctx):
                         'evaluated per generated message by the driver (histogram model_clean)']
     if not ctx.searching:
         params(ctx)
+        lexer_params(ctx)
     for c in ctx.corpus():
         EVAL[c['kind']](ctx, [c])
     cases = gen_cases(ctx)
+    lexcases = gen_lexer_cases(ctx, 1500 * ctx.scale)
+    for i in range(0, len(lexcases), 2000):
+        eval_lexer(ctx, lexcases[i:i + 2000])
     for kind in ('reading', 'parser', 'server', 'client'):
         cs = cases[kind]
         for i in range(0, len(cs), 250):
             EVAL[kind](ctx, cs[i:i + 250])
+            LEXTIE.flush(ctx)
             if ctx.time_up():
                 return
 
@@ -1000,3 +1305,4 @@ def search(ctx):
 
 def replay(ctx, case):
     EVAL[case['kind']](ctx, [case])
+    LEXTIE.flush(ctx)
